@@ -15,7 +15,7 @@ TOKEN_RE = re.compile(r'''
   | (?P<string>(?:hex|unicode)?(?:"(?:[^"\\\n]|\\.)*"|'(?:[^'\\\n]|\\.)*'))
   | (?P<hexnum>0[xX][0-9a-fA-F_]+)
   | (?P<number>(?:[0-9][0-9_]*)?\.?[0-9][0-9_]*(?:[eE]-?[0-9_]+)?)
-  | (?P<ident>[A-Za-z_$][A-Za-z0-9_$]*)
+  | (?P<ident>[A-Za-z_$\u0080-\uffff][A-Za-z0-9_$\u0080-\uffff]*)
   | (?P<op>>>>=|>>=|<<=|>>>|\*\*|\+\+|--|&&|\|\||==|!=|<=|>=|=>|->|\+=|-=|\*=|/=|%=|\|=|&=|\^=|<<|>>|:=)
   | (?P<punct>[{}()\[\];,.:?~!<>=+\-*/%&|^])
 ''', re.S | re.X)
@@ -86,6 +86,10 @@ def relayout(src, rng, style):
         elif style == 'comments':
             c = rng.choice(COMMENT_TEXTS)
             sep = rng.choice([' ', '\n', ' /* ' + c.replace('*/', '* /') + ' */ ', ' // ' + c + '\n', '\n/* ' + c.replace('*/', '* /') + '\n*/\n', ' '])
+        elif style == 'dense':
+            # a comment in EVERY gap (so the distance between any two adjacent tokens grows by more than 32 bytes)
+            c = rng.choice(COMMENT_TEXTS) + ' ' + rng.choice(COMMENT_TEXTS)
+            sep = rng.choice([' /* ' + c.replace('*/', '* /') + ' */ ', ' // ' + c + '\n', '\n/* ' + c.replace('*/', '* /') + '\n*/\n'])
         else:
             sep = rng.choice([' ', ' ', '\n', '\n\n', '\t', '  ', '\r\n', ' /*c*/ ', ' // ' + rng.choice(COMMENT_TEXTS) + '\n'])
         emit(sep)
